@@ -18,6 +18,8 @@
   * `GraphNameOk`: the root's `"name"` metadata entry, if any, is a string or falsy.
 -/
 import HugrVerif.Proofs.Render
+import HugrVerif.Proofs.RenderTree
+import HugrVerif.Props.C04
 import HugrVerif.PyStr
 
 namespace HugrVerif.Props.C20
@@ -403,5 +405,26 @@ example : render exStrs { exStore with nodes := [some ⟨.module, none, 0, 0, []
 def exExt : Op := .extOp ⟨some "arithmetic.int", "idivmod_u", "", none⟩ none [.boundedNat 5]
 example : displayName exStrs false exExt = "idivmod_u" ∧ displayName exStrs true exExt = "arithmetic.int.idivmod_u<5>" ∧
     extPrefix exExt = "arithmetic.int." ∧ argSuffix exStrs exExt = "<5>" := ⟨rfl, rfl, rfl, rfl⟩
+
+/-! ### every HUGR built through the mutators -/
+
+/-- The store hypotheses hold in every state reachable through the mutators with live node arguments
+    (C04 `ReachT`: also after node deletion and index reuse, where children need not have larger indices
+    than their parents). -/
+theorem reachT_store_hypotheses (rootOp : Op) (m : Serial.Meta) (s : St) (hr : C04.ReachT rootOp m s) :
+    HierInv s ∧ RootInv s ∧ HierWF s := by
+  obtain ⟨_, hh, hroot, _⟩ := C04.reachT_inv rootOp m s hr
+  obtain ⟨order, _, _, hnd, hcl, hmem⟩ := C04.hierarchy_order_exact rootOp m s hr
+  exact ⟨hh, hroot, hierWF_of_order s hh order hnd hcl hmem⟩
+
+/-- **Rendering any such HUGR with complete operations succeeds, with exactly one node statement per
+    node.** -/
+theorem render_reachT (E : Strs) (rootOp : Op) (m : Serial.Meta) (s : St) (hr : C04.ReachT rootOp m s)
+    (c : RenderConfig) (hops : AllOpsComplete s) (hname : GraphNameOk s) :
+    ∃ out, render E s c = .ok out ∧ (Item.drawn out.root).Nodup ∧
+      ∀ i, i ∈ Item.drawn out.root ↔ i ∈ Store.liveNodes s := by
+  obtain ⟨hh, hroot, hwf⟩ := reachT_store_hypotheses rootOp m s hr
+  obtain ⟨out, ho⟩ := render_succeeds E s c hh hroot hwf hops hname
+  exact ⟨out, ho, one_node_stmt_per_node E s c out hh hroot hwf ho⟩
 
 end HugrVerif.Props.C20
